@@ -189,6 +189,8 @@ def stage_guard_rules(rep, cl, io, li, f_io):
                     for g_, opts_ in STAGE_OPTIONS.items():
                         if opts_ == STAGE_OPTIONS.get(f_):
                             assume[("compare", ("is",), (("attr", SELF, g_), ("const", None)))] = False
+                            if g_.startswith("anonymizer"):
+                                assume[("attr", SELF, g_)] = True  # an instance of a package class is truthy (no __bool__ / __len__: model-integrity)
                 skipped_anyway = bp.possible(assume) is not False
                 rep.ob(cl + ".stage-guard", st, not skipped_anyway, "stage %s can be skipped although its own object is present (%s): some other feature's state decides whether it runs" % (st, bp.describe()[:140]), W(f_io),
                        key="%s.stage-guard|%s" % (cl, st), nontrivial=False)
